@@ -147,7 +147,7 @@ Proof.
     destruct (ty_of item) as [[t| |]|] eqn:Ti; try (destruct f; discriminate E).
     destruct (tr_project d item) as [q|] eqn:Q; [|destruct f; discriminate E].
     destruct (tr_conds d c) as [cs|] eqn:F; [|destruct f; discriminate E].
-    destruct (aggr_ty_ok f t && item_ok f t item) eqn:Ok2; [|destruct f; discriminate E]. apply andb_prop in Ok2. destruct Ok2 as [Ok _].
+    destruct (aggr_ty_ok f t && item_ok q) eqn:Ok2; [|destruct f; discriminate E]. apply andb_prop in Ok2. destruct Ok2 as [Ok _].
     assert (Ex : x = XSAgg f (match f with FCount => true | _ => false end) q (sub_join, cs)) by (destruct f; inversion E; try reflexivity; congruence).
     subst x. cbn [xval]. rewrite (sub_rows_sound d Hd params db g c cs Ty Dc F).
     set (sel := filter (cond_holds params c g) (members g)).
